@@ -144,7 +144,7 @@ def run(ctx):
     ok = len(subs) == 1
     if ctx.check(ok, "K8-purge-recycled", pr["fn"], "one-cutoff", "one Cid::sub_secs", f"expected one Cid::sub_secs in purge_recycled, found {len(subs)}", file=pr["file"], line=pr["line"]):
         sub = subs[0]
-        arg = peel(sub["args"][0])
+        arg = core_of(sub["args"][0], Binds(pr["body"]))
         ctx.check(def_of(arg) == RB, "K8-purge-recycled", pr["fn"], "cutoff-age:RECYCLEBIN_MAX_AGE", "cut-off age = RECYCLEBIN_MAX_AGE",
                   f"purge_recycled subtracts `{ex_s(arg)[:50]}` instead of RECYCLEBIN_MAX_AGE: recycled entries become tombstones after the wrong retention period",
                   file=pr["file"], line=sub.get("line"))
@@ -225,7 +225,7 @@ def run(ctx):
                           "the write transaction's trim_cid is not computed with Cid::sub_secs", file=d["file"], line=s.get("line"))
                 if ok:
                     sub = fl.hit
-                    arg = peel(sub["args"][0])
+                    arg = core_of(sub["args"][0], Binds(d["body"]))
                     ctx.check(def_of(arg) == CL, "K8-purge-tombstones", d["fn"], "trim-age:CHANGELOG_MAX_AGE", "trim age = CHANGELOG_MAX_AGE",
                               f"the write transaction's trim_cid subtracts `{ex_s(arg)[:50]}` instead of CHANGELOG_MAX_AGE: tombstones are reaped on the wrong schedule",
                               file=d["file"], line=sub.get("line"))
